@@ -142,6 +142,11 @@ def handle (op : String) (args : List String) : Option String :=
       match rest with
       | [hex] => (hexBytes? hex).map (plyClass h)
       | _ => none
+  | "c14.holds.pts_one_point", [t, cls] => do
+      -- a one-point PTS file cut inside its point line after `t` tokens, accepted by the implementation with class
+      -- `cls`: by `pts_one_point_exact` the record has intensity iff t > 3 and colour iff t > 6 (absent otherwise)
+      let t ← t.toNat?
+      pure (boolStr (cls == s!"ok:1:{if t > 3 then 1 else 0}:{if t > 6 then 1 else 0}" && t ≥ 3))
   | "c14.holds.readers_agree", _fmt :: _k :: rest =>
       -- the same bytes through a family of io.Readers: (reader-name digest)*, true iff all digests are equal
       match rest with
